@@ -75,7 +75,7 @@ def _double_to_int(x):
 _core._PATCH_REGISTRATIONS[int] = _int_keeping_doubles_symbolic
 
 from . import compat
-from .compat import BoundReached, HangAbort, KnownRegion
+from .compat import BoundReached, HangAbort, KnownRegion, StepBudget
 from .codec import enc
 
 # ---- math.fmod: contract stub -------------------------------------------------------------------
@@ -233,6 +233,8 @@ def explore(fn, *, per_path=10.0, budget=60.0, max_fail=12, max_paths=200000,
                                 cut = True
                             except KnownRegion as k:
                                 known = str(k)
+                            except StepBudget:
+                                ret = "step budget exhausted: the run did not end within the harness's step bound"
                             except HangAbort:
                                 signal.alarm(0)
                                 hung = True
